@@ -252,6 +252,24 @@ def r12_2(ctx):
                 lo, hi = clamp_bounds(fn, v.id, s)
                 ok = (lo is not None and hi is not None and lo > 0 and hi >= 1 and lo <= 1) if lo is not None else None
                 why = 'factor clamped to [%s, %s]' % (lo, hi)
+                # the clamp reaches the update on EVERY path: it is not nested under a branch that the update is not under
+                defs_ = [d_ for d_ in ast.walk(fn) if isinstance(d_, ast.Assign) and src(d_.targets[0]) == v.id and d_.lineno < s.lineno]
+                if ok and defs_:
+                    def _branches(node):
+                        out, x = [], parent(node)
+                        while x is not None and x is not w:
+                            if isinstance(x, (ast.If, ast.Try, ast.For, ast.While)):
+                                out.append(x)
+                            x = parent(x)
+                        return out
+                    mine = _branches(s)
+                    extra = [b for b in _branches(defs_[-1]) if not any(b is m for m in mine)]
+                    if extra and len(defs_) > 1:
+                        ctx.violated('R12.2', fi.qual, '%s clamped only under `%s`' % (v.id, src(extra[0].test)[:40] if isinstance(extra[0], ast.If) else type(extra[0]).__name__), defs_[-1],
+                                     'the bounds [%s, %s] are applied on the path through `%s` only; on the other path `%s` multiplies tau by the raw factor `%s` -- '
+                                     'after a badly rejected step tau shrinks by 5e-6 instead of at most 0.2 (an infinite scaled error gives tau = 0 and the loop never ends)'
+                                     % (lo, hi, src(extra[0].test)[:40] if isinstance(extra[0], ast.If) else '...', src(s), src(defs_[-2].value)[:50]))
+                        continue
             else:
                 why = 'factor expression not recognised'
         else:
